@@ -13,6 +13,7 @@ import (
 	"errors"
 	"fmt"
 	"io"
+	"regexp"
 	"sort"
 	"strings"
 	"sync"
@@ -280,7 +281,8 @@ func genC11CSS(r *core.Rand) c11Host {
 }
 
 type c11Reg struct {
-	mode map[string]int // media type -> 0 absent, 1 stub, 2 failing (plain error), 3 failing (parse error)
+	mode     map[string]int // media type -> 0 absent, 1 stub, 2 failing (plain error), 3 failing (parse error)
+	patterns bool           // register the stubs as exact-match patterns instead of literals (a registry may have no literal at all)
 }
 
 var c11Types = []string{"application/javascript", "text/javascript", "module", "application/ld+json", "application/json", "text/template", "text/x-custom", "text/css", "text/less", "image/svg+xml", "application/mathml+xml"}
@@ -288,14 +290,21 @@ var c11Types = []string{"application/javascript", "text/javascript", "module", "
 func c11Judge(run *core.Run, h c11Host, reg c11Reg, hostile int) string {
 	rec := &c11Recorder{hostile: hostile}
 	m := minify.New()
+	add := func(mt string, f minify.MinifierFunc) {
+		if reg.patterns {
+			m.AddFuncRegexp(regexp.MustCompile("^"+regexp.QuoteMeta(mt)+"$"), f)
+		} else {
+			m.AddFunc(mt, f)
+		}
+	}
 	for _, mt := range c11Types {
 		switch reg.mode[mt] {
 		case 1:
-			m.AddFunc(mt, rec.stub(mt, 0))
+			add(mt, rec.stub(mt, 0))
 		case 2:
-			m.AddFunc(mt, rec.stub(mt, 1))
+			add(mt, rec.stub(mt, 1))
 		case 3:
-			m.AddFunc(mt, rec.stub(mt, 2))
+			add(mt, rec.stub(mt, 2))
 		}
 	}
 	hostType := map[string]string{"html": "text/html", "svg": "image/svg+xml", "css": "text/css"}[h.Lang]
@@ -305,11 +314,11 @@ func c11Judge(run *core.Run, h c11Host, reg c11Reg, hostile int) string {
 		case -1:
 			m.Add("text/html", &mhtml.Minifier{})
 		case 1:
-			m.AddFunc("text/html", rec.stub("text/html", 0))
+			add("text/html", rec.stub("text/html", 0))
 		case 2:
-			m.AddFunc("text/html", rec.stub("text/html", 1))
+			add("text/html", rec.stub("text/html", 1))
 		case 3:
-			m.AddFunc("text/html", rec.stub("text/html", 2))
+			add("text/html", rec.stub("text/html", 2))
 		}
 	case "svg":
 		m.Add("image/svg+xml", &msvg.Minifier{})
@@ -781,6 +790,7 @@ func C11(run *core.Run) {
 		reg.mode["text/html"] = -1
 		if h.Lang == "html" && i%3 == 2 {
 			reg.mode["text/html"] = []int{0, 1, 1, 2, 3, 0}[r.Intn(6)]
+			reg.patterns = i%2 == 0 // the host is called directly: the registry may consist of patterns only
 		}
 		if i%4 == 0 { // a quarter of the cases without failing minifiers at all
 			for k, v := range reg.mode {
